@@ -33,9 +33,14 @@ fn minmax(xs: &[f64]) -> (f64, f64) {
 
 /// Invariant on one state. `hist` = inputs since reset, `o` = output of the last one.
 fn invariant(cfg: &Cfg, hist: &[Op], o: &Out) -> Result<(), (String, String)> {
-    let t = hist.len();
     let m = hist.iter().map(|x| x.maxmag()).fold(0.0, f64::max);
-    let slack = tau(t) * m;
+    invariant_at(cfg, hist, hist.len(), m, o)
+}
+
+/// `hist` may be only the tail (at least one window) of a history of `steps` inputs whose largest magnitude is `m`
+fn invariant_at(cfg: &Cfg, hist: &[Op], steps: usize, m: f64, o: &Out) -> Result<(), (String, String)> {
+    let t = hist.len();
+    let slack = tau(steps) * m;
     let n = cfg.p[0];
     let v = o.v;
     let e = |c: &str, s: String| Err((c.to_string(), s));
@@ -344,6 +349,78 @@ pub fn run(ctx: &Ctx) -> CheckResult {
         });
         res.absorb(merge_jobs(outs));
     }
+    // long horizon: one instance fed past 2^22 inputs (periodic maintenance code - "rebuild the moments every
+    // 2^22 updates" - runs for the first time there): constant off-grid streams (a one-pass variance of a
+    // constant window is a negative rounding residue) and a tick-grid walk; EVERY step judged
+    if !res.out.failed() {
+        let h = super::refcmp::horizon_len(th);
+        let ws = super::refcmp::tick_walk(h, ctx.seed ^ 0x09, false, true, false);
+        let wb = super::refcmp::tick_walk(h, ctx.seed ^ 0x09, true, true, false);
+        let mut hz: Vec<(Cfg, u8)> = vec![];
+        for stream in 0..3u8 {
+            for cfg in [Cfg::p1(Kind::Sd, 20), Cfg::p1(Kind::Sd, 10), Cfg::pm(Kind::Bb, 20, 2.0), Cfg::pm(Kind::Bb, 22, 2.0), Cfg::p1(Kind::Mad, 20), Cfg::p1(Kind::Sma, 20), Cfg::p1(Kind::Wma, 20), Cfg::p1(Kind::Atr, 14), Cfg::pm(Kind::Kc, 14, 2.0)] {
+                hz.push((cfg, stream));
+            }
+        }
+        let outs = par_run(ctx, &hz, |_, (cfg, stream)| {
+            let mut out = JobOut::default();
+            let n = cfg.p[0];
+            let bars = cfg.kind.bar_native();
+            let constant = [100.7, 100.2][(*stream as usize).min(1)];
+            let op_at = |i: usize| -> Op {
+                match stream {
+                    2 => {
+                        if bars {
+                            wb[i]
+                        } else {
+                            ws[i]
+                        }
+                    }
+                    _ => {
+                        if bars {
+                            Op::B(Bar { o: constant, h: constant, l: constant, c: constant, v: 1.0 })
+                        } else {
+                            Op::S(constant)
+                        }
+                    }
+                }
+            };
+            let mut tail: std::collections::VecDeque<Op> = std::collections::VecDeque::with_capacity(n + 1);
+            let mut m = 0.0f64;
+            let mut bad: Option<(usize, Out, String, String)> = None;
+            let r = std::panic::catch_unwind(std::panic::AssertUnwindSafe(|| {
+                let mut s = make(cfg);
+                for i in 0..h {
+                    let op = op_at(i);
+                    m = m.max(op.maxmag());
+                    let o = s.apply(&op);
+                    tail.push_back(op);
+                    if tail.len() > n {
+                        tail.pop_front();
+                    }
+                    let hist: Vec<Op> = if matches!(cfg.kind, Kind::Sma | Kind::Wma) { tail.iter().copied().collect() } else { vec![] };
+                    if let Err((class, exp)) = invariant_at(cfg, &hist, i + 1, m, &o) {
+                        bad = Some((i, o, class, exp));
+                        return;
+                    }
+                }
+            }));
+            out.stats.traces += 1;
+            out.stats.transitions += h as u64;
+            out.stats.states += h as u64;
+            out.stats.evaluations += h as u64;
+            out.stats.nontrivial += h as u64;
+            let shown: Vec<Op> = tail.iter().copied().collect();
+            if r.is_err() {
+                out.fail(Violation::new(PROP, cfg, &shown, "panic").obs("panic".into()).exp("outputs".into()));
+            } else if let Some((i, o, class, exp)) = bad {
+                out.fail(Violation::new(PROP, cfg, &shown, &class).obs(out2s(&o)).exp(exp).det(format!("input number {} of one instance on {}; ops shown = the current window", i + 1, if *stream == 2 { "a tick-grid walk".to_string() } else { format!("the constant stream {}", constant) })));
+            }
+            out
+        });
+        res.extra.insert("long_horizon_steps".into(), json!(h));
+        res.absorb(merge_jobs(outs));
+    }
     // LAST: finite inputs at both ends of the f64 range (differences overflow)
     if !res.out.failed() {
         let ext = with_reset(s_ops(&S_SIGNED_MAX));
@@ -373,6 +450,6 @@ pub fn run(ctx: &Ctx) -> CheckResult {
         res.absorb(merge_jobs(outs));
     }
     res.rule = "case = (configuration, history); invariants evaluated on the real output in every state: SD/MAD >= 0 and not NaN, TR/ATR >= 0, Minimum <= Maximum (paired run), lower <= average <= upper (BB, KC; multiplier >= 0), CE inside the reference window extremes, histogram = line - signal (MACD, PPO), SMA/WMA inside the window hull, EMA inside the history hull (last groups up to tau(t)*M); non-trivial = history longer than the window".into();
-    res.bounds = format!("seq(S_int+reset,{d}), seq(S_rough,{dr}) and seq(S_tiny+reset) scalar, seq(B_grid+reset,{db}) bars (ChandelierExit / KeltnerChannel also on the grid shifted to negative prices), periods 1..5, multipliers {{0,0.5,2,1e6}}; streams mixing scalars and bars on one instance; EMA periods that are multiples of 2^32; the same histories to depth 4/5 with a serde round trip / clone before the last operation; seq(S_signed_max = {{-1e308, 1e308, f64::MAX, f64::MIN, 1, 0}}+reset, 5/7) last (listed findings K6-K11 there); tick-grid walks of 600 / 2000 steps for periods 6..40; all 5^3 orderings of {{extremes, flat, spikes, osc, tick}} segments at scales 1e-3, 1, 1e9");
+    res.bounds = format!("seq(S_int+reset,{d}), seq(S_rough,{dr}) and seq(S_tiny+reset) scalar, seq(B_grid+reset,{db}) bars (ChandelierExit / KeltnerChannel also on the grid shifted to negative prices), periods 1..5, multipliers {{0,0.5,2,1e6}}; streams mixing scalars and bars on one instance; EMA periods that are multiples of 2^32; the same histories to depth 4/5 with a serde round trip / clone before the last operation; seq(S_signed_max = {{-1e308, 1e308, f64::MAX, f64::MIN, 1, 0}}+reset, 5/7) last (listed findings K6-K11 there); tick-grid walks of 600 / 2000 steps for periods 6..40; constant streams 100.7 / 100.2 and a tick-grid walk of 2^22+4096 (2^23+4096) inputs on one instance, every step judged; all 5^3 orderings of {{extremes, flat, spikes, osc, tick}} segments at scales 1e-3, 1, 1e9");
     res
 }
